@@ -619,7 +619,10 @@ int _GD_InitRawIO(DIRFILE *D, gd_entry_t *E, const char *filebase, int fragment,
 
     /* Do nothing, if possible */
     if (!touch && (((mode & GD_FILE_READ) && (E->e->u.raw.file[0].idata >= 0)
-            && (E->e->u.raw.file[0].mode & GD_FILE_READ))
+            && (E->e->u.raw.file[0].mode & GD_FILE_READ)
+            /* an out-of-place write in progress must be finished first */
+            && !((enc->flags & GD_EF_OOP)
+              && (E->e->u.raw.file[0].mode & GD_FILE_WRITE)))
           || ((mode & GD_FILE_WRITE) && (E->e->u.raw.file[oop_write].idata >= 0)
             && (E->e->u.raw.file[0].mode & GD_FILE_WRITE))))
     {
